@@ -29,7 +29,7 @@ GC_EVERY = 20
 
 
 def configs(tier, seed):
-    n = 800 if tier == 'quick' else 10000
+    n = 2000 if tier == 'quick' else 16000
     return [{'name': impl + '-cache', 'impl': impl, 'mode': 'hyp', 'n': n}
             for impl in ('c', 'py')]
 
@@ -47,7 +47,7 @@ def op_strategy(draw):
         ['sub'] * 2 + ['tsub'] * 2 + ['unsub'] * 2 + ['rbases', 'rebuild'] +
         ['ibases'] * 2 + ['cimpl'] * 2 + ['conly', 'dprov', 'dprov', 'aprov',
                                           'nprov'] + ['tspec'] * 4 +
-        ['burst']))
+        ['burst'] + ['classcut'] * 2))
     if k == 'query':
         arity = draw(st.sampled_from([0, 1, 1, 1, 2, 2, 2]))
         entry = draw(st.sampled_from(ENTRY))
@@ -78,6 +78,9 @@ def op_strategy(draw):
         return ['rbases', draw(IDX), draw(st.lists(IDX, max_size=2))]
     if k == 'rebuild':
         return ['rebuild', draw(IDX)]
+    if k == 'classcut':
+        return ['classcut', draw(IDX), draw(st.integers(0, 40)),
+                draw(st.integers(0, 40)), draw(st.booleans())]
     if k == 'burst':
         # rebuild followed by a few targeted registrations, no lookups
         # in between
@@ -91,7 +94,10 @@ def op_strategy(draw):
         return ['ibases', draw(IDX), draw(st.lists(IDX, max_size=2)),
                 draw(st.booleans())]
     if k in ('cimpl', 'conly'):
-        return [k, draw(IDX), draw(st.lists(IDX, min_size=1, max_size=2))]
+        # classImplementsOnly(cls) without interfaces is a declaration too:
+        # it only cuts the class off from what its bases implement
+        return [k, draw(IDX), draw(st.lists(IDX, min_size=0 if k == 'conly'
+                                            else 1, max_size=2))]
     if k in ('dprov', 'aprov'):
         return [k, draw(IDX), draw(st.lists(IDX, max_size=2))]
     return ['nprov', draw(IDX), draw(IDX)]
@@ -104,6 +110,22 @@ def case_strategy(draw):
         bp['classes'] = [{'bases': [], 'implements': [0], 'only': False}]
     if not bp['insts']:
         bp['insts'] = [{'cls': 0, 'direct': []}]
+    if draw(st.integers(0, 3)) == 0:
+        # a chain of classes most of which declare nothing: a change in
+        # the middle then alters the resolution order of the classes below
+        # only by class specifications, not by interfaces
+        depth = draw(st.integers(3, 4))
+        bp['classes'] = [
+            {'bases': [c - 1] if c else [],
+             'implements': draw(st.lists(
+                 st.integers(0, len(bp['ibases']) - 1), max_size=1))
+             if draw(st.integers(0, 2)) == 0 else [],
+             'only': False} for c in range(depth)]
+        bp['insts'] = [{'cls': depth - 1 - (k % 2),
+                        'direct': draw(st.lists(
+                            st.integers(0, len(bp['ibases']) - 1),
+                            max_size=1))}
+                       for k in range(draw(st.integers(1, 3)))]
     ops = [draw(op_strategy()) for _ in range(draw(st.integers(8, 40)))]
     checks = draw(st.lists(st.booleans(), min_size=1, max_size=6))
     return {'bp': bp, 'ops': ops, 'checks': checks}
@@ -416,6 +438,47 @@ def run_case(case, cfg, out):
             U.regs[r].rebuild()
             log.append(('rebuild', r))
             out.tag('rebuild')
+        elif kind == 'classcut':
+            # A class in the middle of the MRO of a looked-up object stops
+            # inheriting (classImplementsOnly without interfaces) while
+            # something is registered for a class above it: the looked-up
+            # specification changes only through notifications, and only
+            # in its class specifications.
+            _, which, px, py, subscribe = op
+            cands = [k for k in queried
+                     if any(x[0] in ('o', 'c') for x in k[2])]
+            if not cands:
+                continue
+            key = cands[which % len(cands)]
+            pos = [i for i, x in enumerate(key[2]) if x[0] in ('o', 'c')]
+            i = pos[px % len(pos)]
+            cls = type(resolve(key[2][i])) if key[2][i][0] == 'o' else \
+                resolve(key[2][i])
+            mro = [c for c in cls.__mro__ if c in U.classes]
+            if len(mro) < 3:
+                out.tag('classcut_too_shallow')
+                continue
+            xi = 1 + px % (len(mro) - 2)
+            X = mro[xi]
+            Y = mro[xi + 1 + py % (len(mro) - xi - 1)]
+            req = [None] * len(key[2])
+            req[i] = implementedBy(Y)
+            chain = M.ro(key[1])
+            r = chain[py % len(chain)]
+            v = newfactory(False)
+            if subscribe or key[0] in ('subscriptions', 'subscribers'):
+                prov = None if key[3] is None else U.prov(key[3])
+                U.regs[r].subscribe(req, prov, v)
+                log.append(('subscribe', r, req, prov, v))
+                subs_made.append((r, req, prov, v))
+            else:
+                prov = U.prov(key[3] if key[3] is not None else 0)
+                U.regs[r].register(req, prov, key[4], v)
+                log.append(('register', r, req, prov, key[4], v))
+                regs_made.append((r, req, prov, key[4], v))
+            answer(U.regs, key)          # fills the caches
+            classImplementsOnly(X)
+            out.tag('classcut')
         elif kind == 'burst':
             _, r, count, which, pick = op
             r = r % len(U.regs)
@@ -447,6 +510,16 @@ def run_case(case, cfg, out):
                 continue
             ref = key[2][-1 - (pick % 2) % len(key[2])]
             targets = [U.ifaces[i % nI] for i in idxs]
+            def mro_class(cls):
+                # the class itself or one of the generated classes it
+                # inherits from (a change in the middle of the MRO reaches
+                # the looked-up specification only through notifications)
+                cands = [c for c in cls.__mro__ if c in U.classes]
+                return cands[(pick // 2) % len(cands)]
+
+            def only_targets():
+                return targets if pick % 3 else []
+
             if ref[0] == 'o':
                 ob = U.insts[ref[1] % len(U.insts)]
                 if mode == 0:
@@ -454,13 +527,14 @@ def run_case(case, cfg, out):
                 elif mode == 1:
                     alsoProvides(ob, *targets)
                 elif mode == 2:
-                    classImplements(type(ob), *targets)
+                    classImplements(mro_class(type(ob)), *targets)
                 else:
-                    classImplementsOnly(type(ob), *targets)
+                    classImplementsOnly(mro_class(type(ob)),
+                                        *only_targets())
             elif ref[0] == 'c':
-                cls = U.classes[ref[1] % len(U.classes)]
+                cls = mro_class(U.classes[ref[1] % len(U.classes)])
                 if mode % 2:
-                    classImplementsOnly(cls, *targets)
+                    classImplementsOnly(cls, *only_targets())
                 else:
                     classImplements(cls, *targets)
             else:
